@@ -253,9 +253,42 @@ def mutated_params(f, summaries=None, configures=None) -> set:
         if a.annotation is not None and src(a.annotation) in ("int", "float", "str", "bool"):
             immutable.add(a.arg)
 
+    alias_of = {}
+
+    def may_alias(e, live):
+        """the live parameter (or alias) whose object - or a part of it - the expression may denote"""
+        if isinstance(e, ast.Name):
+            return e.id if e.id in live else None
+        if isinstance(e, ast.IfExp):
+            return may_alias(e.body, live) or may_alias(e.orelse, live)
+        if isinstance(e, ast.BoolOp):
+            for v in e.values:
+                r = may_alias(v, live)
+                if r:
+                    return r
+            return None
+        if isinstance(e, (ast.Subscript, ast.Attribute)):
+            return may_alias(e.value, live)
+        if isinstance(e, ast.NamedExpr):
+            return may_alias(e.value, live)
+        return None
+
+    class _Out(set):
+        def add(self, name):                    # a mutation through a local alias is a mutation of the parameter it aliases
+            set.add(self, alias_of.get(name, name))
+    out = _Out()
+
     def visit_block(stmts, live):
         live = set(live)
         for st in stmts:
+            # a local bound to (a part of) a live parameter's object is an alias of it
+            if isinstance(st, ast.Assign) and len(st.targets) == 1 and isinstance(st.targets[0], ast.Name) and st.targets[0].id not in live:
+                root = may_alias(st.value, live)
+                if root is not None:
+                    check_expr(st.value, live)
+                    alias_of[st.targets[0].id] = alias_of.get(root, root)
+                    live.add(st.targets[0].id)
+                    continue
             # rebinding kills aliasing with the caller's object if the new value is fresh
             if isinstance(st, ast.Assign) and len(st.targets) == 1 and isinstance(st.targets[0], ast.Name) and st.targets[0].id in live:
                 check_expr(st.value, live)
@@ -363,10 +396,12 @@ def _setlike(n) -> bool:
     return False
 
 
-def unordered_loops(mod: Mod):
-    """[(qualname, For node, description)]"""
+def unordered_loops(mod: Mod, known_sets=(), param_sets=None):
+    """[(qualname, For node, description)]; known_sets: module-level names that hold sets, param_sets: {qualname: {param: why}}"""
     out = []
+    param_sets = param_sets or {}
     for q, f in mod.funcs.items():
+        extra = set(known_sets) | set(param_sets.get(q, {}))
         for n in ast.walk(f):
             if isinstance(n, (ast.For, ast.comprehension)):
                 it = n.iter
@@ -383,6 +418,8 @@ def unordered_loops(mod: Mod):
                 elif isinstance(it, ast.Name):
                     # a local bound (once) to such a set expression
                     defs = [st.value for st in ast.walk(f) if isinstance(st, ast.Assign) and len(st.targets) == 1 and isinstance(st.targets[0], ast.Name) and st.targets[0].id == it.id]
+                    if not defs and it.id in extra:
+                        desc = f"set {it.id} ({param_sets.get(q, {}).get(it.id, 'module-level set')})"
                     if len(defs) == 1 and (_setlike(defs[0]) or (isinstance(defs[0], ast.BinOp) and isinstance(defs[0].op, (ast.BitAnd, ast.BitOr, ast.BitXor, ast.Sub))
                                                                   and (_setlike(defs[0].left) or _setlike(defs[0].right)))):
                         desc = f"set {it.id} = {src(defs[0])[:40]}"
@@ -390,6 +427,101 @@ def unordered_loops(mod: Mod):
                     if any(n in ast.walk(g) for qq, g in mod.funcs.items() if qq != q and qq.startswith(q + ".")):
                         continue
                     out.append((q, n, desc))
+    return out
+
+
+ORDER_INSENSITIVE_CONSUMERS = {"set", "frozenset", "sorted", "any", "all", "min", "max", "len", "dict", "collections.Counter", "Counter"}
+
+
+def _is_set_expr(n, known=()) -> bool:
+    # a dict view alone iterates in insertion order; it is a set only as an operand of set algebra (handled by the BinOp case)
+    is_view = isinstance(n, ast.Call) and isinstance(n.func, ast.Attribute) and n.func.attr in ("keys", "items", "values") and not n.args
+    if _setlike(n) and not is_view:
+        return True
+    if isinstance(n, ast.Name) and n.id in known:
+        return True
+    if isinstance(n, ast.BinOp) and isinstance(n.op, (ast.BitAnd, ast.BitOr, ast.BitXor, ast.Sub)) and (_is_set_expr(n.left, known) or _is_set_expr(n.right, known)):
+        return True
+    return False
+
+
+def set_typed_names(model, mods):
+    """names that certainly hold sets: module-level names bound (only) to set expressions, and parameters that some call
+    site in the package binds to a set expression or to such a module-level name.  Returns (module sets {mod: {name}},
+    parameter sets {(mod, qualname): {param: description}})."""
+    modsets = {}
+    for mname, mod in mods:
+        names = {}
+        for st in mod.tree.body:
+            if isinstance(st, ast.Assign) and len(st.targets) == 1 and isinstance(st.targets[0], ast.Name):
+                names.setdefault(st.targets[0].id, []).append(st.value)
+        modsets[mname] = {k for k, vs in names.items() if all(_is_set_expr(v) for v in vs)}
+    # call sites: callee identified by its simple name (function or method); only unambiguous names are used
+    by_simple = {}
+    for mname, mod in mods:
+        for q, f in mod.funcs.items():
+            by_simple.setdefault(q.split(".")[-1], []).append((mname, q, f))
+    paramsets = {}
+    for mname, mod in mods:
+        for q, f in mod.funcs.items():
+            for c in ast.walk(f):
+                if not isinstance(c, ast.Call):
+                    continue
+                callee = c.func.attr if isinstance(c.func, ast.Attribute) else (c.func.id if isinstance(c.func, ast.Name) else None)
+                targets = by_simple.get(callee, [])
+                if len(targets) != 1:
+                    continue
+                tm, tq, tf = targets[0]
+                params = [a.arg for a in tf.args.posonlyargs + tf.args.args]
+                offset = 1 if params and params[0] in ("self", "cls") and isinstance(c.func, ast.Attribute) else 0
+                bound = {}
+                for i, a in enumerate(c.args):
+                    if i + offset < len(params):
+                        bound[params[i + offset]] = a
+                for kw in c.keywords:
+                    if kw.arg:
+                        bound[kw.arg] = kw.value
+                for pname, a in bound.items():
+                    if _is_set_expr(a, modsets[mname]):
+                        paramsets.setdefault((tm, tq), {})[pname] = f"{src(a)[:40]} passed by {q}"
+    return modsets, paramsets
+
+
+def unordered_comprehensions(mod: Mod, known_sets=(), param_sets=None):
+    """comprehensions / generator expressions that iterate over a set and hand their items, in set order, to a consumer for
+    which the order matters: [(qualname, node, description, consumer)]"""
+    out = []
+    param_sets = param_sets or {}
+    for q, f in mod.funcs.items():
+        known = set(known_sets) | set(param_sets.get(q, {}))
+        # locals bound once to a set expression
+        defs = {}
+        for st in ast.walk(f):
+            if isinstance(st, ast.Assign) and len(st.targets) == 1 and isinstance(st.targets[0], ast.Name):
+                defs.setdefault(st.targets[0].id, []).append(st.value)
+        known |= {k for k, vs in defs.items() if all(_is_set_expr(v, known) for v in vs)}
+        known -= {k for k, vs in defs.items() if not all(_is_set_expr(v, known) for v in vs)}
+        parents = {}
+        for p_ in ast.walk(f):
+            for c in ast.iter_child_nodes(p_):
+                parents[id(c)] = p_
+        for n in ast.walk(f):
+            if not isinstance(n, (ast.ListComp, ast.GeneratorExp, ast.DictComp, ast.SetComp)):
+                continue
+            if any(n in ast.walk(g) for qq, g in mod.funcs.items() if qq != q and qq.startswith(q + ".")):
+                continue
+            gens = [g for g in n.generators if _is_set_expr(g.iter, known) or (isinstance(g.iter, ast.Call) and (dotted_name(g.iter.func) or "") in UNORDERED_CALLS)]
+            if not gens:
+                continue
+            if isinstance(n, (ast.SetComp, ast.DictComp)):
+                continue                      # still unordered / keyed
+            par = parents.get(id(n))
+            consumer = None
+            if isinstance(par, ast.Call) and n in par.args:
+                consumer = dotted_name(par.func) or src(par.func)
+            if consumer in ORDER_INSENSITIVE_CONSUMERS:
+                continue
+            out.append((q, n, f"set {src(gens[0].iter)[:40]}", consumer or "a sequence"))
     return out
 
 
